@@ -192,6 +192,14 @@ def ch_monitor(lines, out):
     return None
 
 
+def torn_monitor(lines, out):
+    for l, o in zip(lines, out):
+        if o.split()[1] != "false":
+            return ("a destination's filter was replaced while a dispatcher evaluated it (%s): the name was accepted although the old "
+                    "filter rejects it (notRegex) and the new filter rejects it (regex): it was tested against a filter that never existed" % l)
+    return None
+
+
 def delroute_cases(rnd, n):
     return [("dl%d" % i, ["run %d %d %d %d" % (k, rnd.randint(0, k - 1), rnd.choice([0, 20, 60, 100]), rnd.choice([1, 3, 10]))])
             for i in range(n) for k in [rnd.choice([1, 2, 3, 5])]]
@@ -226,6 +234,8 @@ def run(ctx):
     from .c01 import classify as _cl, nontrivial as _nt
     ctx.stream("table-history", "table", tg.history_cases(ctx.rng("c18h"), ctx.scale(60, 1200), nbl=(1, 3), nrw=(1, 3)), classify=_cl, nontrivial=_nt,
                spec_exact=True, timeout=ctx.scale(600, 3000), removable=tg.HISTORY_REMOVABLE)
+    ctx.stream("filter-torn", "match", [("tn0", ["torn %d %d" % (rnd_len, d) for rnd_len in (4000000,) for d in ctx.rng("c18t").sample([1, 3, 5, 10, 20, 30, 40, 55], ctx.scale(5, 8))])],
+               model=False, monitor=torn_monitor, shrink=False, timeout=120)
     ctx.stream("delroute-live", "delroute", delroute_cases(ctx.rng("c18dl"), ctx.scale(8, 100)), model=False, monitor=delroute_monitor, shrink=False,
                timeout=ctx.scale(120, 900), classify=lambda l, o: "delay=" + l[0].split()[3])
     ctx.stream("hashing-route-ops", "chops", ch_cases(ctx.rng("c18ch"), ctx.scale(60, 1200)), model=False, monitor=ch_monitor, shrink=True,
